@@ -29,17 +29,18 @@ VERSIONS = ["absent", 0, 1, 2, 3, 10, "3-legacy", "10-legacy", "absent-new"]
 NAMES = ["None", "myproject", "my project v2", "proj-1.0_(test)", "a, b", "it's \"quoted\" #1"]
 WORKSPACES = ["default", "custom", "nested", "colliding"]
 NJOBS = [0, 1, 3, 5]
-SPACE = len(VERSIONS) * len(NAMES) * len(WORKSPACES) * 2 * len(NJOBS) * 2
+LEGACY_FILES = ["none", "both", "cache", "history"]
+SPACE = len(VERSIONS) * len(NAMES) * len(WORKSPACES) * len(LEGACY_FILES) * len(NJOBS) * 2
 
 
 class Engine(EngineBase):
     def budget(self, tier):
-        return (SPACE, 55.0) if tier == "quick" else (SPACE * 10, 900.0)
+        return (SPACE, 110.0) if tier == "quick" else (SPACE * 5, 900.0)
 
     def rule(self):
         return (f"configurations enumerated by mixed radix over the run index (product of {SPACE}: 9 version/layout spellings x 6 "
-                "names x 4 workspace settings x legacy files x 4 job counts x project document); state points, "
-                "listing order and chunking drawn from the seed. both tiers walk the whole product (quick once, thorough ten times with different "
+                "names x 4 workspace settings x legacy files (none / cache and history / cache only / history only) x 4 job counts x project document); state points, "
+                "listing order and chunking drawn from the seed. both tiers walk the whole product (quick once, thorough five times with different "
                 "seeds for state points, listing order and chunking). distinct = configuration tuples; non-trivial = a refusal or a migration was checked")
 
     def extra_evidence(self, stats):
@@ -51,11 +52,12 @@ class Engine(EngineBase):
                 "exhaustive": False}
 
     def generate_indexed(self, index, rng, tier):
-        i = index
-        i %= SPACE
+        # a stride coprime to SPACE: any prefix of the run indices is spread over all dimensions, and SPACE
+        # consecutive indices still visit every configuration exactly once
+        i = (index * 2501) % SPACE
         cfg = {}
         for key, vals in (("version", VERSIONS), ("name", NAMES), ("workspace", WORKSPACES),
-                          ("legacy_files", [False, True]), ("njobs", NJOBS), ("pdoc", [False, True])):
+                          ("legacy_files", LEGACY_FILES), ("njobs", NJOBS), ("pdoc", [False, True])):
             cfg[key] = vals[i % len(vals)]
             i //= len(vals)
         sps = []
@@ -75,7 +77,7 @@ class Engine(EngineBase):
             c = dict(scenario)
             c["sps"] = scenario["sps"][:i] + scenario["sps"][i + 1:]
             yield c
-        for key, simple in (("legacy_files", False), ("pdoc", False), ("name", "None"), ("workspace", "default")):
+        for key, simple in (("legacy_files", "none"), ("pdoc", False), ("name", "None"), ("workspace", "default")):
             if scenario["cfg"][key] != simple:
                 c = dict(scenario)
                 c["cfg"] = dict(scenario["cfg"], **{key: simple})
@@ -170,14 +172,17 @@ class Run:
         if cfg["pdoc"]:
             with O.io_open(os.path.join(pp, PDOC_FILE), "wb") as f:
                 f.write(json.dumps({"existing": [1, 2], "k": "v"}).encode())
-        if cfg["legacy_files"]:
+        lf = cfg["legacy_files"]
+        if lf != "none":
             cache = {jid: j["sp"] for jid, j in jobs.items()}
             if legacy:
-                with O.io_open(os.path.join(pp, ".signac_sp_cache.json.gz"), "wb") as f:
-                    f.write(gzip.compress(json.dumps(cache).encode()))
-                with O.io_open(os.path.join(pp, ".signac_shell_history"), "wb") as f:
-                    f.write(b"print(project)\n")
-            else:
+                if lf in ("both", "cache"):
+                    with O.io_open(os.path.join(pp, ".signac_sp_cache.json.gz"), "wb") as f:
+                        f.write(gzip.compress(json.dumps(cache).encode()))
+                if lf in ("both", "history"):
+                    with O.io_open(os.path.join(pp, ".signac_shell_history"), "wb") as f:
+                        f.write(b"print(project)\n")
+            elif lf in ("both", "cache"):
                 with O.io_open(os.path.join(pp, CACHE_REL), "wb") as f:
                     f.write(gzip.compress(json.dumps(cache).encode()))
         return wsname, jobs
@@ -341,16 +346,22 @@ class Run:
                    "C20:migrate:project-document:" + ("name" if not same(pdoc.get("signac_project_name"),
                                                                         want_doc.get("signac_project_name"))
                                                       else "content"))
-        if cfg["legacy_files"]:
-            with self.world.observing():
-                ok = os.path.isfile(os.path.join(pp, ".signac", "shell_history"))
-                try:
-                    with O.io_open(os.path.join(pp, CACHE_REL), "rb") as f:
-                        cache = json.loads(gzip.decompress(f.read()).decode())
-                except Exception:
-                    cache = None
-            if not ok or cache is None or any(not same(cache.get(jid), j["sp"]) for jid, j in jobs.items()):
-                self.v("C20:migrate:legacy-files", f"history moved: {ok}; cache after migration: {cache}")
+        lf = cfg["legacy_files"]
+        with self.world.observing():
+            hist_now = os.path.isfile(os.path.join(pp, ".signac", "shell_history"))
+            cache_now = os.path.lexists(os.path.join(pp, CACHE_REL))
+            try:
+                with O.io_open(os.path.join(pp, CACHE_REL), "rb") as f:
+                    cache = json.loads(gzip.decompress(f.read()).decode())
+            except Exception:
+                cache = None
+        # each legacy file is moved to its own new place; a file that did not exist does not appear
+        want_hist, want_cache = lf in ("both", "history"), lf in ("both", "cache")
+        if hist_now != want_hist or cache_now != want_cache or (want_cache and (
+                cache is None or any(not same(cache.get(jid), j["sp"]) for jid, j in jobs.items()))):
+            self.v("C20:migrate:legacy-files",
+                   f"legacy files '{lf}': shell history present after migration: {hist_now}; cache file present: "
+                   f"{cache_now}, content {cache}", f"C20:migrate:legacy-files:{lf}")
         # leftovers of the old layout
         with self.world.observing():
             left = [n for n in ("signac.rc", ".signac_sp_cache.json.gz", ".signac_shell_history",
